@@ -27,6 +27,11 @@ def run(R, ctx):
     creation_fallback(R, ctx)
     new_created_at(R, ctx)
     stored_timestamp(R, ctx)
+    # an append-restart continues the file of the LATEST period (maximum over the parsed timestamps, not the first listed), otherwise records of
+    # this period go into a file named after, and aged like, an earlier one (start table shared with R06.3 / R06.5)
+    R.rule('R09.5', 'start: the file continued is the one with the newest timestamp; left-over current file rotated by its own start time (shared with R06.3/R06.5)')
+    import c06 as _c06
+    _c06.start_table(Relabel(R, {'R06.3': 'R09.5', 'R06.5': 'R09.5'}), ctx, restart_sibling_clause=False)
 
 
 def reset_table(R, ctx):
